@@ -99,10 +99,12 @@ Definition go_deref {A} (p : option A) : option A := p.
 (* an error value: nil or one of the package-level errors.New(...) variables, identified by its name *)
 Inductive goerror := go_nil | go_err (name : string).
 
-(* ---- the one loop shape: for i := 0; i < len(x); i++ { body }, x and i not assigned in the body ----
+(* ---- loops: for i := a; i < e; i++ { body } where the body assigns neither i nor any variable that e mentions,
+   and has no break / continue (pure.go checks this), so the number of iterations is known BEFORE the loop:
+   max(0, e - a).  `for i := 0; i < len(x); i++` and `for i[, b] := range x` are the instance a = 0, e = len(x)
+   ("the range expression is evaluated once"; b is x[i] read at the start of the iteration).
    body i = None: panic; Some (Some r): `return r` inside the body; Some None: fell through to the post statement.
-   The iteration count is the nat [length x] (structural recursion, no fuel taken from data); i + 1 cannot
-   overflow because i < len(x) <= max int. *)
+   Structural recursion on the count (no fuel); i + 1 cannot overflow because i < e <= max int. *)
 Fixpoint go_for_from {R} (count : nat) (i : Z) (body : Z -> option (option R)) : option (option R) :=
   match count with
   | O => Some None
@@ -113,5 +115,7 @@ Fixpoint go_for_from {R} (count : nat) (i : Z) (body : Z -> option (option R)) :
            end
   end.
 Definition go_for_upto {R} (n : nat) (body : Z -> option (option R)) : option (option R) := go_for_from n 0%Z body.
+Definition go_for_range {R} (a e : Z) (body : Z -> option (option R)) : option (option R) :=
+  go_for_from (Z.to_nat (e - a)) a body.
 Definition go_break {R} (r : R) : option (option R) := Some (Some r).
 Definition go_continue {R} : option (option R) := Some None.
